@@ -113,3 +113,46 @@ def count_values(p, r, L, values, rng, label):
         # equal counts but fewer than floor(B/r): still unbiased among the probed values (more rejection) - not a violation of the property
         pass
     return None, info
+
+
+def steps(p, lo, hi, max_steps=200):
+    """All maximal constant runs of the (assumed monotone / piecewise constant) function w -> p.one(w) on [lo, hi], found by
+    recursive bisection with real calls: returns [(first, last, value)] in increasing order, or None if more than
+    max_steps runs would be needed (the function is not a small step function)."""
+    vlo, vhi = p.one(lo), p.one(hi)
+    out = []
+    stack = [(lo, vlo, hi, vhi)]
+    bounds = []          # (w, value at w-1, value at w): positions where the value changes
+    while stack:
+        a, va, b, vb = stack.pop()
+        if va == vb:
+            continue     # treated as constant in between (validated afterwards by random probes)
+        if b - a == 1:
+            bounds.append((b, va, vb))
+            if len(bounds) > max_steps:
+                return None
+            continue
+        m = (a + b) // 2
+        vm = p.one(m)
+        stack.append((m, vm, b, vb))
+        stack.append((a, va, m, vm))
+    bounds.sort()
+    first = lo
+    val = vlo
+    for w, va, vb in bounds:
+        out.append((first, w - 1, val))
+        first, val = w, vb
+    out.append((first, hi, val))
+    return out
+
+
+def validate_steps(p, runs, rng, per=8):
+    """random probes inside every run must give the run's value; returns the first counterexample (w, got, expected) or None"""
+    probes, expect = [], []
+    for first, last, val in runs:
+        for _ in range(per):
+            probes.append(first + rng.below(last - first + 1)); expect.append(val)
+    for w, g, e in zip(probes, p.many(probes), expect):
+        if g != e:
+            return (w, g, e)
+    return None
